@@ -8,7 +8,8 @@
 // vector, and WRITES the file together with the ground-truth multiset; it never parses.
 // The full product
 //
-//	every ordered n-tuple of distinct pool entries, n = 0..2 (quick) / 0..4 (thorough)
+//	every ordered n-tuple of distinct pool entries, n = 0..2 (quick) / 0..4 (thorough; 0..3 for the
+//	formats with the largest layout products: dpkg, requirements, gomod, cargolock, poetrylock)
 //	x every value combination of the format's layout dimensions
 //
 // is enumerated, each file is handed to the real extractor's Extract(), and the
@@ -128,6 +129,9 @@ type format struct {
 	gen   func(recs []rec, lay []int) genOut
 	newEx func() filesystem.Extractor
 	norm  func(r rec) rec // comparison normalisation (don't-care cells), may be nil
+	// maxThorough caps the record count in the thorough tier for formats whose layout
+	// product is large (0 = the global bound 4). Quick always uses 0..2.
+	maxThorough int
 }
 
 func (f *format) dimIndex(name string) int {
@@ -662,11 +666,31 @@ func main() {
 		}
 		formats = keep
 	}
+	if d := os.Getenv("C03_DUMP"); d != "" { // development aid: C03_DUMP=<format>:<v0,v1,...> prints one generated file
+		id, vs, _ := strings.Cut(d, ":")
+		for _, f := range formats {
+			if f.id != id {
+				continue
+			}
+			lay := make([]int, len(f.dims))
+			for i, v := range strings.Split(vs, ",") {
+				if i < len(lay) {
+					fmt.Sscan(v, &lay[i])
+				}
+			}
+			g := f.gen([]rec{f.pool[1], f.pool[0]}, lay)
+			fmt.Printf("%v\n%q\n%s\n", layoutFull(f, lay), g.file, g.file)
+		}
+		os.Exit(0)
+	}
 	var tasks []task
 	perFormat := map[string]int64{}
 	for n := 0; n <= maxN; n++ { // simplest first
 		var level []task
 		for _, f := range formats {
+			if f.maxThorough > 0 && n > f.maxThorough {
+				continue
+			}
 			for _, idx := range tuples(len(f.pool), n) {
 				level = append(level, task{f, idx})
 				c := int64(1)
@@ -703,6 +727,13 @@ func main() {
 	computeSoloFails(formats)
 	done := r.ParallelFor(len(tasks), func(i int) { runTask(r, tasks[i]) })
 	r.Set("max_records", maxN)
+	caps := map[string]int{}
+	for _, f := range formats {
+		if f.maxThorough > 0 && f.maxThorough < maxN {
+			caps[f.id] = f.maxThorough
+		}
+	}
+	r.Set("max_records_per_format_override", caps)
 	r.Set("formats", len(formats))
 	r.Set("cases_per_format", perFormat)
 	r.Set("tasks_done", done)
@@ -761,3 +792,26 @@ var (
 )
 
 func baseName(p string) string { return path.Base(p) }
+
+// tomlWhitespace rewrites generated TOML lines in place: tight '=' with tab-indented keys and
+// trailing blanks (ws), and a tab-separated trailing comment after single-line string values.
+func tomlWhitespace(lines []string, ws, trailingComments bool) {
+	for k, ln := range lines {
+		if ln == "" || ln[0] == '#' {
+			continue
+		}
+		key, val, isKV := strings.Cut(ln, " = ")
+		simple := isKV && !strings.ContainsAny(key, " \t[{") && strings.HasPrefix(val, `"`) && strings.HasSuffix(val, `"`) && strings.Count(val, `"`) == 2
+		if ws {
+			if simple {
+				ln = "\t" + key + "=" + val + "  "
+			} else if ln[0] == '[' {
+				ln = "  " + ln + " \t"
+			}
+		}
+		if trailingComments && simple {
+			ln += "\t# name = \"fake\" version = \"9.9.9\""
+		}
+		lines[k] = ln
+	}
+}
